@@ -18,6 +18,7 @@ CONSTANTS
   Weak_NewValidBlockIgnored = FALSE
   Weak_InitMarksPartsHad = FALSE
   Weak_VoteMarkedBeforeRoundCheck = FALSE
+  Code_POLShadowedByCatchupRound = TRUE
   AllowedGaps <- AllGaps
   NodeMenu <- LiveNode
   PeerMenu <- LivePeer
